@@ -269,7 +269,7 @@ def rule_G2(prog, fixture=False, only_compound=False):
             for fo in sorted(foreign):
                 g = None
                 for b in bobjs:
-                    g = ctx.relating_guard_at(node, b, fo)
+                    g = ctx.relating_guard_at(node, b, fo, need_throw=bool(is_compound))
                     if g is not None:
                         break
                 if g is None:
@@ -281,6 +281,25 @@ def rule_G2(prog, fixture=False, only_compound=False):
                           "index bound comes from %s but no live guard relates its size to %s" % (
                               ", ".join("/".join(o) for o in missing), ", ".join("/".join(o) for o in sorted(bobjs))),
                           bobjs, foreign))
+        if is_compound:
+            # G2a: "rejected with an exception and left unchanged" - every element write of the left operand is
+            # dominated by the throwing size guard
+            rhs_obj = ("parm", f.params[0]["n"])
+            for n in f.walk():
+                if n.k in ("BinaryOperator", "CompoundAssignOperator", "CXXOperatorCallExpr") and n.op and n.op.endswith("=") \
+                        and n.op not in ("==", "!=", "<=", ">="):
+                    lhs = n.c[0] if n.k != "CXXOperatorCallExpr" else (n.c[1] if len(n.c) > 1 else None)
+                    if lhs is None:
+                        continue
+                    l = lhs.strip_all()
+                    if l.k == "DeclRefExpr":
+                        continue
+                    if any(r[0] == "this" for r in ctx.flow.root(l)):
+                        g = ctx.relating_guard_at(n, THIS, rhs_obj, need_throw=True)
+                        sites.append((n, "element-write", g is not None,
+                                      ("guard %s" % g.cond.text()) if g is not None else
+                                      "element of the left operand is written before / without the throwing size check",
+                                      {THIS}, {rhs_obj}))
         if not sites:
             continue
         key = "G2:" + fkey(f)
